@@ -65,6 +65,7 @@ type CheckCfg struct {
 	RuntimeOv  bool              `json:"runtime_overlay"` // overlay the patched Go runtime files (simkit/goroot) and build with tag verifrt
 	Also       []string          `json:"also"`   // further harness ids run as part of this check (their classes count for this property)
 	Parent     string            `json:"parent"` // set in a sub-harness: the property id it reports for
+	StmtGates  []string          `json:"stmt_gates"` // globs of files in which a gate is inserted between statements (must also be under instrument)
 	GoGates    []string          `json:"go_gates"` // globs of files whose `go` statements get a gate at goroutine start
 	Selects    []string          `json:"selects"` // globs of files whose multi-case selects are determinised
 	NetShim    []string          `json:"netshim"` // globs of files whose "net" import is swapped
@@ -224,6 +225,12 @@ func build(cfg *CheckCfg) (*buildOut, error) {
 			swapr[f] = true
 		}
 	}
+	stmtr := map[string]bool{}
+	for _, g := range cfg.StmtGates {
+		for _, f := range glob(g) {
+			stmtr[f] = true
+		}
+	}
 	gor := map[string]bool{}
 	for _, g := range cfg.GoGates {
 		for _, f := range glob(g) {
@@ -270,7 +277,7 @@ func build(cfg *CheckCfg) (*buildOut, error) {
 		if err != nil {
 			return nil, err
 		}
-		out, st, err := instrument(f, src, instOpts{net: netshim[f], time: timeshim[f], mapRanges: mapr[f], mapSites: sites[f], selects: selr[f], swap: swapr[f], goGates: gor[f], extra: cfg.Extra})
+		out, st, err := instrument(f, src, instOpts{net: netshim[f], time: timeshim[f], mapRanges: mapr[f], mapSites: sites[f], selects: selr[f], swap: swapr[f], goGates: gor[f], stmtGates: stmtr[f] && swapr[f], extra: cfg.Extra})
 		if err != nil {
 			return nil, fmt.Errorf("instrument %s: %v", f, err)
 		}
